@@ -598,6 +598,9 @@ impl FunctionCompiler<'_> {
             } => {
                 let continue_block = self.continues[&label];
 
+                // the blocks between here and the loop are being left, so their defers have to run
+                self.compile_defers_until(label);
+
                 self.builder.ins().jump(continue_block, &[]);
             }
             hir::Stmt::Continue { label: None, .. } => unreachable!(),
@@ -620,6 +623,20 @@ impl FunctionCompiler<'_> {
     fn break_to_label(&mut self, value: Option<Value>, label: hir::ScopeId) {
         let exit_block = self.exits[&label];
 
+        self.compile_defers_until(label);
+
+        if let Some(value) = value {
+            self.builder
+                .ins()
+                .jump(exit_block, &[BlockArg::Value(value)]);
+        } else {
+            self.builder.ins().jump(exit_block, &[]);
+        };
+    }
+
+    /// compiles the defers of every block between the current location and the scope `label`
+    /// (the scope that is being broken out of, or the loop that is being continued)
+    fn compile_defers_until(&mut self, label: hir::ScopeId) {
         // run all the defers from here, backwards to the one we are breaking out of
 
         let mut used_frames = Vec::new();
@@ -646,14 +663,6 @@ impl FunctionCompiler<'_> {
         }
 
         self.defer_stack.extend(used_frames.into_iter().rev());
-
-        if let Some(value) = value {
-            self.builder
-                .ins()
-                .jump(exit_block, &[BlockArg::Value(value)]);
-        } else {
-            self.builder.ins().jump(exit_block, &[]);
-        };
     }
 
     fn store_default_in_memory(&mut self, expected_ty: Intern<Ty>, memory: MemoryLoc) {
@@ -1603,7 +1612,16 @@ impl FunctionCompiler<'_> {
                 self.builder.switch_to_block(body_block);
                 self.builder.seal_block(body_block);
 
+                // the loop has its own (empty) defer frame so that a `break` or `continue`
+                // only runs the defers inside the loop, and not those of the enclosing blocks
+                self.defer_stack.push(DeferFrame {
+                    id: self.world_bodies[self.loc.file()].block_to_scope_id(expr),
+                    defers: Vec::new(),
+                });
+
                 self.compile_expr(body);
+
+                self.defer_stack.pop().expect("we just pushed this");
 
                 self.builder.ins().jump(header_block, &[]);
 
